@@ -181,6 +181,14 @@ pub fn random(run: &mut Runner, seed: u64, count: u64) {
     }
 }
 
+fn pick_fault<'a, R: Rng>(rng: &mut R, ci: u64, kinds: &'a [&'static str]) -> &'a &'static str {
+    if ci % 2 == 0 {
+        &kinds[(ci / 2) as usize % kinds.len()]
+    } else {
+        kinds.choose(rng).unwrap()
+    }
+}
+
 pub fn random_banks<R: Rng>(rng: &mut R, ci: u64) -> (u32, Vec<BankB>, &'static str) {
     let sim_maps = maps_for_cached(SIM);
     {
@@ -250,8 +258,9 @@ pub fn random_banks<R: Rng>(rng: &mut R, ci: u64) -> (u32, Vec<BankB>, &'static 
             banks.push(BankB::new(["TRBA", "MCVX", "B09A", "B18F"].choose(rng).unwrap(), vec![rng.gen(); 5]));
         }
         // one inconsistency
-        let fault = if banks.len() < 2 { "none" } else { *["none", "none", "none", "rename", "rename-chunk", "swap", "dup", "dup-empty", "drop-trg", "bv", "flip", "unknown",
-                      "drop-bank", "foreign-mac", "not-installed", "dup-trg", "empty16", "near-name", "near-name", "trg-bit", "rename-channel", "rename-board"].choose(rng).unwrap() };
+        // every kind in turn on even event numbers (so that each is reached whatever the seed), drawn on odd ones
+        let fault = if banks.len() < 2 { "none" } else { *pick_fault(rng, ci, &["none", "none", "none", "rename", "rename-chunk", "swap", "dup", "dup-empty", "drop-trg", "bv", "flip", "unknown",
+                      "drop-bank", "foreign-mac", "not-installed", "dup-trg", "empty16", "near-name", "near-name", "trg-bit", "rename-channel", "rename-board"]) };
         let i = rng.gen_range(0..banks.len());
         match fault {
             "rename-chunk" => {
